@@ -130,7 +130,7 @@ func (e *Exec) execCall2(in ssa.Instruction, c *ssa.CallCommon) Val {
 		// calling a hash constructor value (func() hash.Hash)
 		if sig.Params().Len() == 0 && sig.Results().Len() == 1 && shortName(types.TypeString(sig.Results().At(0).Type(), nil)) == "hash.Hash" {
 			if ft, ok := e.val(c.Value).(*Term); ok {
-				return e.newHash(App("hashsize", BV(64), ft))
+				return e.newHash(App("hashsize", BV(64), ft), ft, nil)
 			}
 		}
 		return e.havocCall("dynamic call", nil, c, args, sig)
@@ -576,6 +576,15 @@ func (e *Exec) backing(s *Term, el types.Type) *Term {
 	return Select(e.heapGet(n, hs), SlRef(s))
 }
 
+// backingCanon: like backing, with read-over-write resolution (for sequence-level facts on byte slices).
+func (e *Exec) backingCanon(s *Term, el types.Type) *Term {
+	n, hs := elemHeap(el)
+	if !e.seqFacts() || e.vc.frozen > 0 {
+		return Select(e.heapGet(n, hs), SlRef(s))
+	}
+	return e.canonArr(e.heapGet(n, hs), SlRef(s))
+}
+
 func (e *Exec) setBacking(ref *Term, el types.Type, arr *Term) {
 	n, hs := elemHeap(el)
 	e.heapSet(n, Store(e.heapGet(n, hs), ref, arr))
@@ -608,14 +617,36 @@ func (e *Exec) execCopy(c *ssa.CallCommon) Val {
 		srcArr, srcOff, srcLen = StrArr(s), bv64zero, StrLen(s)
 	} else {
 		s := e.term(c.Args[1])
-		srcArr, srcOff, srcLen = e.backing(s, el), SlOff(s), SlLen(s)
+		srcArr, srcOff, srcLen = e.backingCanon(s, el), SlOff(s), SlLen(s)
 	}
 	n := e.vc.Define("ncopy", Ite(SLt(SlLen(dst), srcLen), SlLen(dst), srcLen))
-	old := e.backing(dst, el)
-	na := e.copyInto(old, SlOff(dst), e.vc.Define("src", srcArr), srcOff, n, "cp")
+	old := e.vc.Define("cpold", e.backingCanon(dst, el))
+	srcArr = e.vc.Define("src", srcArr)
+	na := e.copyInto(old, SlOff(dst), srcArr, srcOff, n, "cp")
 	// copying 0 elements into a nil slice must not create an object
 	e.setBackingIf(Neq(SlRef(dst), IntLit(0)), SlRef(dst), el, na)
+	if isByteType(el) && e.seqFacts() {
+		// copied prefix of dst equals the copied prefix of src; the rest of dst is unchanged
+		e.vc.Assume(e.g, Eq(App("bseq.of", "BSeq", na, SlOff(dst), n), App("bseq.of", "BSeq", srcArr, srcOff, n)))
+		rest := BVSub(SlLen(dst), n)
+		e.vc.Assume(e.g, Eq(App("bseq.of", "BSeq", na, BVAdd(SlOff(dst), n), rest), App("bseq.of", "BSeq", old, BVAdd(SlOff(dst), n), rest)))
+		// whole destination = copied part || untouched part
+		e.vc.Assume(e.g, Eq(App("bseq.of", "BSeq", na, SlOff(dst), SlLen(dst)),
+			App("seqcat", "BSeq", App("bseq.of", "BSeq", srcArr, srcOff, n), App("bseq.of", "BSeq", old, BVAdd(SlOff(dst), n), rest))))
+	}
 	return n
+}
+
+func isByteType(t types.Type) bool {
+	if b, ok := types.Unalias(t).Underlying().(*types.Basic); ok {
+		return b.Kind() == types.Uint8
+	}
+	return false
+}
+
+// seqFacts: sequence-level facts are only emitted when the spec library declares the sequence sort.
+func (e *Exec) seqFacts() bool {
+	return e.vc.specs != nil && e.vc.specs.ByName["bseq.of"] != nil
 }
 
 func (e *Exec) setBackingIf(cond *Term, ref *Term, el types.Type, arr *Term) {
@@ -635,6 +666,9 @@ func (e *Exec) execAppend(c *ssa.CallCommon) Val {
 		t := e.term(c.Args[1])
 		srcArr, srcOff, n = e.backing(t, el), SlOff(t), SlLen(t)
 	}
+	if isByteType(el) && !isString(c.Args[1].Type()) {
+		srcArr = e.backingCanon(e.term(c.Args[1]), el)
+	}
 	srcArr = e.vc.Define("src", srcArr)
 	newLen := e.vc.Define("nlen", BVAdd(SlLen(s), n))
 	// len+n <= 2^48 is the address-space assumption (two live slices cannot exceed it together), not an obligation
@@ -644,7 +678,7 @@ func (e *Exec) execAppend(c *ssa.CallCommon) Val {
 	fresh := e.allocRef("app")
 	ncap := e.vc.Fresh("ncap", BV(64))
 	e.vc.Assume(True, And(SGe(ncap, newLen), SLe(ncap, maxLen)))
-	oldArr := e.vc.Define("old", e.backing(s, el))
+	oldArr := e.vc.Define("old", e.backingCanon(s, el))
 	// in place: old array with the new elements written after len
 	inPlace := e.copyInto(oldArr, BVAdd(SlOff(s), SlLen(s)), srcArr, srcOff, n, "app")
 	// fresh: copy old contents to offset 0, then new elements
@@ -657,7 +691,14 @@ func (e *Exec) execAppend(c *ssa.CallCommon) Val {
 	h := e.heapGet(nh, hs)
 	e.heapSet(nh, Ite(isNoop, h, Store(h, ref, Ite(fits, inPlace, moved))))
 	res := MkSlice(ref, Ite(fits, SlOff(s), bv64zero), newLen, Ite(fits, SlCap(s), ncap))
-	return e.vc.Define("apps", Ite(isNoop, s, res))
+	out := e.vc.Define("apps", Ite(isNoop, s, res))
+	if isByteType(el) && e.seqFacts() {
+		// the same on the sequence abstraction: result = old contents || appended contents
+		newArr := e.vc.Define("apparr", e.backingCanon(out, el))
+		e.vc.Assume(e.g, Eq(App("bseq.of", "BSeq", newArr, SlOff(out), SlLen(out)),
+			App("seqcat", "BSeq", App("bseq.of", "BSeq", oldArr, SlOff(s), SlLen(s)), App("bseq.of", "BSeq", srcArr, srcOff, n))))
+	}
+	return out
 }
 
 // ---------- defers ----------
